@@ -79,6 +79,8 @@ fn main() {
         "C03" => drive(&checks::statics::Statics { which: checks::statics::Which::C03 }, &opts),
         "C04" => drive(&checks::statics::Statics { which: checks::statics::Which::C04 }, &opts),
         "C07" => drive(&checks::multi::Multi, &opts),
+        "C08" => drive(&checks::dynamic::Dynamic { faults: false }, &opts),
+        "C09" => drive(&checks::dynamic::Dynamic { faults: true }, &opts),
         _ => {
             eprintln!("unknown property {}", id);
             2
